@@ -107,6 +107,11 @@ def gen_templates(rng, n):
             used.discard(t.tid)
             t.tid = edge
             used.add(edge)
+    # ... and nothing keeps it apart from the template INSTANCE ids either (both are small numbers the controller hands
+    # out): sometimes a template's handle equals its own or another template's instance id
+    if out and rng.random() < 0.3:
+        t = rng.choice(out)
+        t.handle = rng.choice(out).tid
     return out
 
 
@@ -234,10 +239,16 @@ def gen_project(rng, n_templates=None, n_tags=None, with_programs=True):
             ptags.sort(key=lambda s: s.inst)
             programs.append(("Program:" + pn, ptags))
     controller.sort(key=lambda s: s.inst)
+    reads = rng.choice([[], [], [1], [4, 8], [100], [2000]])
+    # the read schedule repeats its last entry: one byte per reply over a tag of tens of kilobytes is tens of thousands of
+    # round trips per request — kept for data of ordinary size only (the cost, not the behaviour, is the reason)
+    biggest = max([len(s.mem) for s in controller] + [len(s.mem) for _, ps in programs for s in ps] + [0])
+    if reads and min(reads) < 100 and biggest > 6000:
+        reads = [2000] if rng.random() < 0.5 else []
     return {"templates": templates, "controller": controller, "programs": programs,
             "rev": rng.choice([16, 17, 18, 20, 21, 24, 32]), "micro800": False,
             "pages": rng.choice([[], [1], [2], [3, 1], [1000]]), "tmpl": rng.choice([[], [1], [7], [16, 3], [500]]),
-            "reads": rng.choice([[], [], [1], [4, 8], [100], [2000]])}
+            "reads": reads}
 
 
 # ------------------------------------------------------------------ scenario rendering
